@@ -116,7 +116,7 @@ def campaign_translate(ck: Check, n: int) -> None:
     t0 = time.time()
     rng = ck.rng.fork("translate")
     tabs = esc.tables()
-    names = {"enum": "enumTable", "typeddict": "typedDictKeyTable", "pattern": "patternTable"}
+    names = {"enum": "enumTable", "typeddict": "typedDictKeyTable"}
     cases = [(rng.choice(list(names)), gens.adversarial(rng, 8)) for _ in range(n)]
     replies = ck.driver.run([f"esc.quoted {t} {hx(s)}" for t, s in cases])
     for (t, s), rep in zip(cases, replies):
@@ -130,6 +130,39 @@ def campaign_translate(ck: Check, n: int) -> None:
             ck.disagree(camp, {"table": t, "s": s}, model, impl)
         elif len(camp.samples) < 2:
             camp.samples.append({"table": t, "s": s, "quoted": impl})
+    camp.wall_s = time.time() - t0
+
+
+PATTERN_ALPHABET = [["\\", "\\\\", "'", '"', "\\'", "\t", "\n", "\x00", "\x7f", "\x1f"], list("^$.*+d[]()|a1 "), ["\\d", "\\.", "\\w+", "é", "\x80"]]
+
+
+def campaign_pattern(ck: Check, n: int) -> None:
+    camp = ck.campaign("esc.rawsafe (patternRawOK) vs model/pydantic/types.py pattern_literal; the written literal evaluates to the pattern")
+    t0 = time.time()
+    rng = ck.rng.fork("pattern")
+    from datamodel_code_generator.model.pydantic.types import pattern_literal
+
+    cases = [gens.adversarial(rng, 6, PATTERN_ALPHABET) for _ in range(n)] + ["", "\\", "\\\\", "a\\", "'", "^abc", "\x7f"]
+    replies = ck.driver.run([f"esc.rawsafe {hx(s)}" for s in cases])
+    for s, rep in zip(cases, replies):
+        camp.evaluations += 1
+        lit = pattern_literal(s)
+        impl_raw = lit.startswith("r'")
+        model_raw = rep == "ok true"
+        camp.hit("raw" if impl_raw else "repr")
+        camp.distinct.add(s)
+        if model_raw != impl_raw:
+            ck.disagree(camp, {"pattern": s}, "raw" if model_raw else "repr", lit)
+            continue
+        try:
+            ok = ast.literal_eval(lit) == s
+        except (SyntaxError, ValueError):
+            ok = False
+        if not ok:
+            ck.fail({"oracle": "pattern_literal_roundtrip", "site": "pattern", "trigger": trigger_of("pattern", s), "rendering": "pattern_literal"},
+                    {"pattern": s}, f"pattern_literal({s!r}) = {lit!r} does not evaluate to the pattern")
+        elif len(camp.samples) < 3:
+            camp.samples.append({"pattern": s, "literal": lit})
     camp.wall_s = time.time() - t0
 
 
@@ -395,6 +428,7 @@ def run(ck: Check) -> None:
     campaign_lex(ck, 3000 if quick else 40000)
     campaign_translate(ck, 600 if quick else 6000)
     campaign_docstring(ck, 800 if quick else 10000)
+    campaign_pattern(ck, 1000 if quick else 15000)
     campaign_e2e(ck, 400 if quick else 6000)
     ck.search_hooks.append(search_bad_table_char)
     known_findings(ck)
